@@ -136,17 +136,18 @@ class SimSolver(pulp.LpSolver):
             raise solver_error(fault, "sim: injected failure before solving")
         model = zero_one.from_pulp(lp)
         result = env.solve_model(model, info)
-        variables = [v for v in lp.variables() if v.name != "__dummy"]
+        variables = [model.objects[k] for k in model.names]
+        keyof = {id(v): k for k, v in model.objects.items()}
         if result["status"] == "optimal":
             chosen = result["solutions"][fault.get("tie", 0) % len(result["solutions"])]
             info["tie_index"] = fault.get("tie", 0) % len(result["solutions"])
         else:
-            chosen = {v.name: 0 for v in variables}
+            chosen = {k: 0 for k in model.names}
         if kind == "raise_after_partial":
             n = 0
             for pos, v in enumerate(variables):
                 if _mask(pos, fault.get("partial", 0)):
-                    v.varValue = float(chosen[v.name])
+                    v.varValue = float(chosen[keyof[id(v)]])
                     n += 1
             events.fired("api.raise_after_partial")
             info["partial_assigned"] = n
@@ -159,7 +160,7 @@ class SimSolver(pulp.LpSolver):
             n = 0
             for pos, v in enumerate(variables):
                 if assign == "full" or (assign == "partial" and _mask(pos, fault.get("partial", 0))):
-                    v.varValue = float(chosen[v.name])
+                    v.varValue = float(chosen[keyof[id(v)]])
                     n += 1
             lp.assignStatus(pulp.LpStatusOptimal)
             events.fired("api.raise_after_optimal." + assign)
@@ -173,7 +174,7 @@ class SimSolver(pulp.LpSolver):
             n = 0
             for pos, v in enumerate(variables):
                 if assign == "full" or (assign == "partial" and _mask(pos, fault.get("partial", 0))):
-                    v.varValue = float(1 - chosen[v.name]) if fault.get("invert", True) else float(chosen[v.name])
+                    v.varValue = float(1 - chosen[keyof[id(v)]]) if fault.get("invert", True) else float(chosen[keyof[id(v)]])
                     n += 1
             lp.assignStatus(STATUS_OF_KIND[kind])
             events.fired("api." + kind + "." + assign)
@@ -187,7 +188,7 @@ class SimSolver(pulp.LpSolver):
                 env.end_solve(info, delivered=False, how="model-infeasible")
                 return lp.status
             for v in variables:
-                v.varValue = 0.9999999 if chosen[v.name] else 0.0
+                v.varValue = 0.9999999 if chosen[keyof[id(v)]] else 0.0
             lp.assignStatus(pulp.LpStatusOptimal)
             events.fired("api.ok_tolerance")
             env.end_solve(info, delivered=True, how="ok_tolerance")
@@ -204,7 +205,8 @@ class SimSolver(pulp.LpSolver):
         if loose is not None:
             chosen = loose
             events.fired("api.ok_within_requested_gap")
-        lp.assignVarsVals({name: float(x) for name, x in chosen.items()})
+        for v in variables:
+            v.varValue = float(chosen[keyof[id(v)]])
         lp.assignStatus(pulp.LpStatusOptimal)
         events.fired("api.ok")
         env.end_solve(info, delivered=True, how="ok")
@@ -295,7 +297,7 @@ class RealProcProxy:
                     self.info["stub_value"] = float(res["value"])
                 else:
                     self.info["stub_value"] = "infeasible"
-            except (zero_one.NodeCap, zero_one.Unsupported, ValueError, IndexError):
+            except (zero_one.NodeCap, zero_one.Unsupported, zero_one.BadModelFile, ValueError, IndexError):
                 self.info["stub_value"] = None
         events.fired("real-cbc.ok" if delivered else "real-cbc.other")
         # the objective value is logged rounded; the assignment itself is judged by the oracle
@@ -354,7 +356,14 @@ class FakeCbcProc:
             events.log("wait", 1)
             env.end_solve(info, delivered=False, how="exit1")
             return 1
-        model = zero_one.from_mps(mps, maximise="-max" in argv)
+        try:
+            model = zero_one.from_mps(mps, maximise="-max" in argv)
+        except zero_one.BadModelFile:
+            # what the real binary does with a file it cannot read: errors on the console, no solution file
+            events.fired("cbc.model_file_rejected")
+            events.log("wait", 0)
+            env.end_solve(info, delivered=False, how="model-file-rejected")
+            return 0
         result = env.solve_model(model, info)
         if kind == "no_sol_file":
             events.fired("cbc.no_sol_file")
@@ -471,7 +480,13 @@ class FakeHighsProc:
             events.log("wait", -1)
             env.end_solve(info, delivered=False, how="exit-1")
             return -1
-        model = zero_one.from_mps(mps)
+        try:
+            model = zero_one.from_mps(mps)
+        except zero_one.BadModelFile:
+            events.fired("highs.model_file_rejected")
+            events.log("wait", -1)
+            env.end_solve(info, delivered=False, how="model-file-rejected")
+            return -1
         result = env.solve_model(model, info)
         zeros = {v: 0 for v in model.names}
         if result["status"] == "optimal":
